@@ -8,6 +8,7 @@ import h2.errors
 import h2.events
 import h2.exceptions
 import priority
+from hyperframe.exceptions import HyperframeError
 
 from .events import (
     Body,
@@ -146,7 +147,14 @@ class H2Protocol:
         self, headers: Optional[List[Tuple[bytes, bytes]]] = None, settings: Optional[str] = None
     ) -> None:
         if settings is not None:
-            self.connection.initiate_upgrade_connection(settings)
+            try:
+                self.connection.initiate_upgrade_connection(settings)
+            except (ValueError, HyperframeError, h2.exceptions.ProtocolError):
+                # The HTTP2-Settings header is not a valid settings
+                # payload, so the connection cannot be upgraded.
+                self.closed = True
+                await self.send(Closed())
+                return
         else:
             self.connection.initiate_connection()
         await self._flush()
@@ -216,6 +224,8 @@ class H2Protocol:
 
     async def handle(self, event: Event) -> None:
         if isinstance(event, RawData):
+            if self.closed:
+                return  # Nothing further is read once the connection has closed
             try:
                 events = self.connection.receive_data(event.data)
             except h2.exceptions.ProtocolError:
